@@ -126,9 +126,9 @@ def link_fn():
 
 UNIT = Unit(
     name="U-LINK",
-    properties=["C15", "C13"],
+    properties=["C15", "C13", "C04"],
     # the determinism clause (first_bad / canonical order) is C13's; everything else is C15's
-    clause_scope={"C13": {"only": ["first_bad", "canonical("]}, "C15": {"except": ["first_bad", "canonical("]}},
+    clause_scope={"C13": {"only": ["first_bad", "canonical("]}, "C15": {"except": ["first_bad", "canonical("]}, "C04": {"except": ["first_bad", "canonical("]}},
     rules=["attrs", "fmtmsg", "msg_to_string", ("consume", ["cores"]), "for_entries"],
     describe="separate::link_cores, consistency phase (everything before code generation): Ok is returned only if every dependency "
              "recorded in every unit is present among the linked units with exactly the recorded interface hash; duplicates are rejected; "
